@@ -129,7 +129,8 @@ def _lens_options(n, p):
 def _weave_shapes(tier):
     out = []
     if tier == 'quick':
-        pls, groups, maxsum = [1, 2, 3], [(1, 1), (1, 2), (2, 1), (2, 2)], 5
+        # sum 6 is the smallest size in which two separate insertions fall into one existing gap run (GA M GA M against a member "-A")
+        pls, groups, maxsum = [1, 2, 3, 4], [(1, 1), (1, 2), (2, 1), (2, 2)], 6
     else:
         pls, groups, maxsum = [1, 2, 3, 4], [(1, 1), (1, 2), (2, 1), (2, 2), (3, 1), (1, 3)], 7
     for na, nb in groups:
@@ -137,7 +138,7 @@ def _weave_shapes(tier):
             for pb in pls:
                 if pa + pb > maxsum:
                     continue
-                if na + nb >= 4 and tier != 'quick' and pa + pb > 6:
+                if na + nb >= 4 and pa + pb > (5 if tier == 'quick' else 6):
                     continue
                 for la in _lens_options(na, pa):
                     for lb in _lens_options(nb, pb):
@@ -156,3 +157,26 @@ Q(id='C01.weave', props=['C01', 'C10', 'C05'], cls='B', harness='c01_weave.c', e
   assumptions=[A_NOFAIL, A_WRAP, 'bounded: groups of 1-2 (thorough 1-3) members, group widths 1-3 (thorough 1-4); member lengths and the merged width L are enumerated as concrete shapes (case split), gap vectors and DP result symbolic; identity substitution of path[0] by the case constant KV_L in three malloc sizes (contracts/weave.loops, aln_run.loops)'])
 PROPS['C01'] = dict(level='other', level_text='x', level_note='x', technique='x')
 PROPS['C10'] = dict(level='other', level_text='x', level_note='x', technique='x')
+
+def _run_shapes(tier):
+    import itertools
+    out = []
+    lens_sets = [(2, 1), (1, 1), (2, 0, 1), (0, 2, 2), (1, 0), (0, 0, 1), (3, 1)] if tier == 'quick' else \
+        [t for n in (2, 3) for t in itertools.product(range(0, 4), repeat=n)]
+    for lens in lens_sets:
+        nz = [x for x in lens if x > 0]
+        ws = range(max(nz), max(nz) + 3) if len(nz) >= 2 else [1]
+        for w in ws:
+            out.append(dict(name='lens%s_w%d' % (''.join(map(str, lens)), w),
+                            defs=dict(KV_N=len(lens), KV_LENS='{' + ','.join(map(str, lens)) + '}', KV_W=w)))
+    return out
+Q(id='C01.kalign_run', props=['C01', 'C04', 'C03'], cls='B', harness='c01_run.c', entry='h_c01_run', shapes=_run_shapes,
+  mode='wrap', unwind=14, timeout=600, loops_files=['msa_op.finalise.loops'], shrink=True,
+  funcs=['kalign_run', 'kalign_essential_input_check', 'dealign_msa', 'msa_sort_len_name', 'sort_by_len_name', 'finalise_alignment',
+         'make_linear_sequence', 'msa_sort_rank', 'sort_by_rank', 'kalign_msa_to_arr'],
+  srcs=['lib/src/msa_check.c', 'lib/src/msa_op.c', 'lib/src/msa_sort.c', 'lib/src/msa_alloc.c', 'lib/src/alphabet.c', 'lib/src/tlrng.c'],
+  native_srcs=['lib/src/tldevel.c', 'lib/src/msa_check.c', 'lib/src/msa_op.c', 'lib/src/msa_sort.c', 'lib/src/msa_alloc.c', 'lib/src/alphabet.c', 'lib/src/tlrng.c'],
+  trusted=[TRUST_MSG, 'qsort: insertion-sort stub calling the real comparator', 'esl_stopwatch_*: no-op stubs',
+           'build_tree_kmeans / create_msa_tree replaced by contract stubs (require: input de-aligned, >= 2 non-empty sequences; ensure: a well-formed alignment)',
+           'convert_msa_to_internal, aln_param_init/free, alloc_tasks/free_tasks: frame-only stubs (each has its own contract query)'],
+  assumptions=[A_NOFAIL, A_WRAP, 'bounded: 2-3 sequences of 0-3 residues, gap counts 0-2, widths case-split; data invariant of detect_aligned instantiated: status UNALIGNED only if all gap counts are 0'])
